@@ -37,6 +37,11 @@ TRUSTED_BASE = [
 ]
 
 
+def _no_surrogates(text: str) -> str:
+    """lone surrogates (generated on purpose as inputs) cannot be written as UTF-8: keep them as \\udXXX escapes in evidence and replay files"""
+    return text.encode("utf-8", "backslashreplace").decode("utf-8")
+
+
 class ToolFailure(Exception):
     """the machinery itself failed (timeout, crash, missing tool): exit 2"""
 
@@ -294,17 +299,17 @@ class Ctx:
             exit_code = 1
             for i, v in enumerate(self.violations[:5]):
                 path = REPLAYS / f"{self.prop}-{_h(v['key'])}.json"
-                path.write_text(json.dumps({"property": self.prop, "what": v["what"], "key": v["key"], "seed": self.seed,
+                path.write_text(_no_surrogates(json.dumps({"property": self.prop, "what": v["what"], "key": v["key"], "seed": self.seed,
                                             "tier": self.tier, "replay": v["replay"], "broken": self.broken},
-                                           indent=1, ensure_ascii=False, default=str))
+                                           indent=1, ensure_ascii=False, default=str)))
                 lines.append(f"VIOLATION property={self.prop} replay={path}")
         elif self.broken:
             exit_code = 1
             path = REPLAYS / f"{self.prop}-unproved-{_h(json.dumps(self.broken, default=str))}.json"
-            path.write_text(json.dumps({"property": self.prop, "seed": self.seed, "tier": self.tier,
+            path.write_text(_no_surrogates(json.dumps({"property": self.prop, "seed": self.seed, "tier": self.tier,
                                         "no_longer_checks": self.broken,
                                         "note": "failing-input search over the implementation found nothing"},
-                                       indent=1, ensure_ascii=False, default=str))
+                                       indent=1, ensure_ascii=False, default=str)))
             lines.append(f"VIOLATION property={self.prop} replay={path} no-failing-input-found")
         cov = dict(self.coverage)
         cov.update({
@@ -325,7 +330,7 @@ class Ctx:
         })
         ev = {"property_id": self.prop, "tier": self.tier, "seed": self.seed, "level": self.level, "coverage": cov,
               "assumptions": self.assumptions, "wall_s": round(wall, 2), "violations": len(self.violations) + (1 if (self.broken and not self.violations) else 0)}
-        (EVIDENCE / f"{self.prop}.json").write_text(json.dumps(ev, indent=1, ensure_ascii=False, default=str) + "\n")
+        (EVIDENCE / f"{self.prop}.json").write_text(_no_surrogates(json.dumps(ev, indent=1, ensure_ascii=False, default=str)) + "\n")
         for l in lines:
             print(l)
         print(f"[{self.prop}] tier={self.tier} seed={self.seed} obligations={len(self.discharged)}/{len(self.obligations)} "
